@@ -141,5 +141,9 @@ Definition restart_clock_not_advanced (g_before : gen) (rs2 : list N) : bool :=
 Definition synthetic_id (zone row : N) : N :=
   N.lor (u64_wrap (N.shiftl (zone mod 2 ^ 32) id_synth_shift)) (u64_wrap row).
 
+(** Known class: the row gets a synthetic id. *)
+Definition synthetic_row (id_column_missing : bool) (stored : N) : bool :=
+  id_column_missing || (stored =? 0).
+
 Definition row_id (segment zone row : N) (id_column_missing : bool) (stored : N) : N :=
-  if id_column_missing || (stored =? 0) then synthetic_id zone row else stored.
+  if synthetic_row id_column_missing stored then synthetic_id zone row else stored.
